@@ -139,8 +139,11 @@ def common_argv(pt):
         if pt["t_offset"]:
             argv += ["--t_offset", str(pt["t_offset"])]
         if pt["crop"]:
-            argv += ["--t_start", repr(pt["crop"][0] + epoch), "--t_end",
-                     repr(pt["crop"][1] + epoch)]
+            # (a bound may be omitted: one-sided crop)
+            if pt["crop"][0] is not None:
+                argv += ["--t_start", repr(pt["crop"][0] + epoch)]
+            if pt["crop"][1] is not None:
+                argv += ["--t_end", repr(pt["crop"][1] + epoch)]
     if pt["project"]:
         argv += ["--project_to_plane", pt["project"]]
     return argv
@@ -170,7 +173,9 @@ def processed_pair(pt):
         est = pl.motion_filter(est, d, a)
     if timed:
         if pt["crop"]:
-            ref = pl.crop(ref, pt["crop"][0] + epoch, pt["crop"][1] + epoch)
+            ref = pl.crop(ref, None if pt["crop"][0] is None else
+                          pt["crop"][0] + epoch, None if pt["crop"][1] is None
+                          else pt["crop"][1] + epoch)
             if ref.n == 0:
                 raise pl.Refusal("no-association")
         ref, est = pl.associate(ref, est, pt["t_max_diff"], pt["t_offset"],
